@@ -2,7 +2,7 @@
 From Coq Require Import List Arith ZArith NArith Bool Sorted Permutation.
 From Coq.Strings Require Import Byte.
 Import ListNotations.
-From SV Require Import Text C09_Model C09_Lemmas C09_Extract C09_Record C09_Box C09_Unterm C09_Scan C09_Parse C09_Get C09_GetAll C09_Header C09_Read C09_Store C09_Sort.
+From SV Require Import Text C09_Model C09_Lemmas C09_Extract C09_Record C09_Box C09_Unterm C09_Scan C09_Parse C09_Get C09_GetAll C09_Header C09_Read C09_Store C09_Sort C09_Hist.
 
 (* P0 (DESIGN appendix A): for every line width, newline sequence and residue string, stripping the newline bytes from the bytes
    [off i, off j) of the wrapped text, off x = x + (x / w) * |nl| (fastaindex.py:118,132), gives s[i:j] *)
@@ -351,3 +351,63 @@ Example C09_store_witness :
   /\ bsf_get (sort_e data) (bs "ab"%bs) = Ok (Entry (bs "ab"%bs) 0 7 3)
   /\ bsf_get (sort_e data) (bs "aa"%bs) = Err (bs "ValueError"%bs).
 Proof. exact (conj eq_refl (conj eq_refl eq_refl)). Qed.
+
+(* ---------------------------------------------------------------------- histories: FastaIndex as a state machine.
+   env = the FASTA files (relative name, abstract well-formed file); an operation is add(files, force) / reopen / get / len /
+   files; the state holds the object fields path and files, the binary index file (header + sorted records) and the dbm.
+   Hypotheses of the three theorems: mode is binary or dbm, file names distinct and well-formed (no comma, line feed, outer
+   white space; ASCII), files well-formed for the mode, the index path well-formed. *)
+
+(* the invariant holds after EVERY history (induction over the operations): path unchanged, registered files duplicate-free
+   and among the given files; the binary file's header is the header of exactly the registered list, its records are sorted
+   and each one was produced by the scan of the file registered under its file number (prov); every dbm value is the
+   _pack of such a record stored under its id, and the dbm header is that of the registered list *)
+Theorem C09_hist_invariant : forall mode hs path (env : list (str * gfile)),
+  (mode = MODE_BINARY \/ mode = MODE_DB) -> NoDup (map fst env) ->
+  Forall (fun nf => wf_gfile mode (snd nf)) env -> Forall (fun nf => name_ok (fst nf) = true) env ->
+  wf_header mode hs path [] = true ->
+  forall ops, inv mode path env (fst (run_ops mode hs (benv env) (init_state path) ops)).
+Proof. exact (fun mode hs path env Hm Hnd Hwf Hn Hp ops => hist_invariant mode hs path env Hm Hnd Hwf Hn Hp ops _ (inv_init mode path env)). Qed.
+Print Assumptions C09_hist_invariant.
+
+(* "also after the index is reopened": after every history, opening the index again (path and file list parsed back from the
+   stored header) gives exactly the same state -- hence the same answer to every later operation *)
+Theorem C09_reopen_same : forall mode hs path (env : list (str * gfile)),
+  (mode = MODE_BINARY \/ mode = MODE_DB) -> NoDup (map fst env) ->
+  Forall (fun nf => wf_gfile mode (snd nf)) env -> Forall (fun nf => name_ok (fst nf) = true) env ->
+  wf_header mode hs path [] = true ->
+  forall ops, let s := fst (run_ops mode hs (benv env) (init_state path) ops) in
+  fst (step mode hs (benv env) s OReopen) = s.
+Proof. exact (fun mode hs path env Hm Hnd Hwf Hn Hp ops => reopen_same mode hs path env Hm Hwf Hn Hp _ (hist_invariant mode hs path env Hm Hnd Hwf Hn Hp ops _ (inv_init mode path env))). Qed.
+Print Assumptions C09_reopen_same.
+
+(* end to end over histories, both back ends: after ANY sequence of add (any files, any order, force or not, the same file
+   again) / reopen / get / len operations, whatever id the index finds (binary search in the sorted records, or the dbm key)
+   answers get_fastaheader / get_fasta / get / get(id, i, j) with the header line, the text, the upper-cased residues and
+   the slice s[i:j] (Python clipping) of the record with that id in the file registered under the stored file number *)
+Theorem C09_hist_get_sound : forall mode hs path (env : list (str * gfile)),
+  (mode = MODE_BINARY \/ mode = MODE_DB) -> NoDup (map fst env) ->
+  Forall (fun nf => wf_gfile mode (snd nf)) env -> Forall (fun nf => name_ok (fst nf) = true) env ->
+  wf_header mode hs path [] = true -> (N.of_nat (length env) < 65536)%N ->
+  forall ops id fn ll st,
+  let s := fst (run_ops mode hs (benv env) (init_state path) ops) in
+  id <> [] -> id <> HEADER_KEY -> lookup_entry mode s id = Ok (fn, ll, st) ->
+  exists nm crlf final rs1 r rs2,
+    nth_error (st_files s) fn = Some nm /\ In (nm, (crlf, final, rs1 ++ r :: rs2)) env /\ rid r = id
+    /\ (forall rng, snd (step mode hs (benv env) s (OGet (Query 2 id rng))) = VS (rhline crlf final rs2 r))
+    /\ snd (step mode hs (benv env) s (OGet (Query 1 id None))) = VS (rtext crlf final rs2 r)
+    /\ snd (step mode hs (benv env) s (OGet (Query 0 id None))) = VL [VS id; VS (hdr crlf r); VS (upper (rseq r))]
+    /\ forall oi oj : option nat,
+         (match oi, oj with Some i, Some j => i <= j | None, None => False | _, _ => True end) ->
+         snd (step mode hs (benv env) s (OGet (Query 0 id (Some (option_map Z.of_nat oi, option_map Z.of_nat oj)))))
+         = VL [VS id; VS (hdr crlf r); VS (upper (sl (rseq r) oi oj))].
+Proof. exact hist_get_sound. Qed.
+Print Assumptions C09_hist_get_sound.
+
+Example C09_hist_witness : forall mode, mode = MODE_BINARY \/ mode = MODE_DB ->
+  NoDup (map fst ex_env) /\ Forall (fun nf => wf_gfile mode (snd nf)) ex_env
+  /\ Forall (fun nf => name_ok (fst nf) = true) ex_env /\ wf_header mode ex_hs (bs "{dbpath}/"%bs) [] = true
+  /\ (N.of_nat (length ex_env) < 65536)%N
+  /\ lookup_entry mode (fst (run_ops mode ex_hs (benv ex_env) (init_state (bs "{dbpath}/"%bs)) [OAdd [1] false; OAdd [0] true; OReopen]))
+                  (bs "B"%bs) = Ok (0, 4, 10).
+Proof. exact hist_witness. Qed.
